@@ -1,7 +1,7 @@
 from .. import attr_oracles as O
 from .attr_common import run_attr_property, replay_attr
 
-DEPS = {"C20": ["AttrThms.vo"], "C09": ["AttrThms.vo"], "C10": ["AttrThms.vo", "AttrThms2.vo"], "C11": ["AttrThms.vo", "gen/KernelsGen.vo"], "C06": ["AttrThms.vo", "gen/KernelsGen.vo", "GenRef.vo", "KernelLin.vo"]}
+DEPS = {"C20": ["AttrThms.vo"], "C09": ["AttrThms.vo"], "C10": ["AttrThms.vo", "AttrThms2.vo"], "C11": ["AttrThms.vo", "gen/KernelsGen.vo"], "C06": ["AttrThms.vo", "gen/KernelsGen.vo", "GenRef.vo", "KernelLin.vo", "Sinusoid.vo"]}
 
 
 def extra(ck):
